@@ -45,6 +45,7 @@ def _wf_loc(r):
 class LocationApi(Case):
     props = ("C19",)
     may_raise = DOCUMENTED
+    xcheck_n = 10  # CPython cross-check samples per case (quick tier; x10 in the thorough tier)
     module = "location.location_impl"
 
     def __init__(self, recv, meth, kinds, other="single"):
@@ -178,3 +179,129 @@ def _mk_cases():
 
 
 CASES = _mk_cases()
+
+
+# ---------------------------------------------------------------------------------------- gene-layer accessors
+GENE_API = {
+    "transcript": ["blocks", "cds_blocks", "cds_chunk_relative_location", "cds_end", "cds_location", "cds_size",
+                   "cds_start", "chromosome_gaps_location", "chromosome_intron_location", "chromosome_location",
+                   "chromosome_span", "chunk_relative_blocks", "chunk_relative_cds_blocks", "chunk_relative_cds_end",
+                   "chunk_relative_cds_size", "chunk_relative_cds_start", "chunk_relative_end",
+                   "chunk_relative_gaps_location", "chunk_relative_intron_location", "chunk_relative_location",
+                   "chunk_relative_size", "chunk_relative_span", "chunk_relative_start", "chunk_relative_strand",
+                   "export_qualifiers", "get_3p_interval", "get_5p_interval", "get_cds_sequence",
+                   "get_genomic_sequence", "get_reference_sequence", "get_spliced_sequence", "get_transcript_sequence",
+                   "has_sequence", "id", "identifiers", "identifiers_dict", "is_chunk_relative", "is_coding",
+                   "is_primary_feature", "is_primary_tx", "name", "num_blocks", "num_chunk_relative_blocks",
+                   "relative_blocks", "strand", "to_bed12", "to_dict", "to_gff"],
+    "cds": ["blocks", "chromosome_codon_locations", "chromosome_gaps_location", "chromosome_location",
+            "chromosome_span", "chunk_relative_blocks", "chunk_relative_codon_locations", "chunk_relative_end",
+            "chunk_relative_frames", "chunk_relative_gaps_location", "chunk_relative_location", "chunk_relative_size",
+            "chunk_relative_span", "chunk_relative_start", "chunk_relative_strand", "export_qualifiers",
+            "extract_sequence", "get_genomic_sequence", "get_reference_sequence", "get_spliced_sequence",
+            "has_sequence", "id", "identifiers", "identifiers_dict", "is_chunk_relative", "is_primary_feature", "name",
+            "num_blocks", "num_chunk_relative_blocks", "num_chunk_relative_codons", "num_codons",
+            "optimize_and_combine_blocks", "optimize_blocks", "relative_blocks", "strand",
+            "to_dict", "to_gff"],
+    # not in the sweep (outside the verifier's subset: iteration over a symbolic number of codons; covered through
+    # chunk_relative_codon_locations / chromosome_codon_locations): scan_codon_locations, scan_chromosome_codon_locations,
+    # scan_chunk_relative_codon_locations; Codon lookups on symbolic text: translate, scan_codons, has_valid_stop,
+    # has_in_frame_stop, has_canonical_start_codon, get_protein_sequence
+}
+_GENE_PROPS = None
+
+
+def _gene_props():
+    """which of the names are properties (read from the class bodies)."""
+    global _GENE_PROPS
+    if _GENE_PROPS is None:
+        from pyvc.repo import Repo
+        repo = Repo()
+        _GENE_PROPS = {}
+        for kind, q in (("transcript", "gene.transcript.TranscriptInterval"), ("cds", "gene.cds.CDSInterval")):
+            cls = repo.find(q)
+            for m in GENE_API[kind]:
+                f = cls.find_method(repo, m)
+                _GENE_PROPS[(kind, m)] = None if f is None else bool(f.is_property)
+    return _GENE_PROPS
+
+
+class GeneApi(Case):
+    """accessors of a (single-exon, coding) TranscriptInterval / CDSInterval, parentless or built on a sequence chunk
+    with ANY window - containing the interval, cutting it, holding no CDS base, or missing it altogether: every
+    accessor returns or raises a documented (library) exception."""
+    props = ("C19", "C07")
+    may_raise = DOCUMENTED
+    shard_depth = 3
+    xcheck_n = 10
+
+    def __init__(self, kind, meth, chunk):
+        self.kind, self.meth, self.chunk = kind, meth, chunk
+        cls = {"transcript": "gene.transcript.TranscriptInterval", "cds": "gene.cds.CDSInterval"}[kind]
+        self.func = f"{cls}.{meth}"
+        self.module = cls.rsplit(".", 1)[0]
+        self.name = (f"{cls.split('.')[-1]}.{meth}[1 exon, {'on a sequence chunk with any window' if chunk else 'no parent'}]"
+                     ": returns or raises a documented error")
+        is_prop = _gene_props()[(kind, meth)]
+        self.call = f"_force(x.{meth}" + ("" if is_prop else "()") + ")"
+        self.ensures = {"returned-location-is-well-formed": lambda i, r: _wf_loc(r)}
+        self.allow_uncovered = ("return",)
+
+    def inputs(self, S):
+        from .gene_common import block_lists, strand_of, TRANSCRIPT, CDS, FRAME
+        starts, ends = block_lists(S, "x", 1)
+        strand = strand_of(S, "strand")
+        cp = None
+        if self.chunk:
+            from .c04_liftover import chunk_parent
+            cp, cs, ce = chunk_parent(S)
+            S.assume(cs < ce)
+        f = S.enum(FRAME, "frame")
+        S.assume(Not(enum_name_is(f, "NONE")))
+        if S.mode == "sym":
+            f = S.e.enum_concretize(f)
+        if self.kind == "cds":
+            x = S.new(CDS, starts, ends, strand, [f], parent_or_seq_chunk_parent=cp)
+        else:
+            c0, c1 = S.int("c0"), S.int("c1")
+            S.assume(And(starts[0] <= c0, c0 < c1, c1 <= ends[0]))
+            x = S.new(TRANSCRIPT, starts, ends, strand, cds_starts=[c0], cds_ends=[c1], cds_frames=[f],
+                      transcript_id="t1", sequence_name="chr1", parent_or_seq_chunk_parent=cp)
+        if S.mode == "native":
+            force = _force
+        else:
+            from pyvc.values import BuiltinFn, SymIter
+            force = BuiltinFn("force", lambda interp, a, k: (
+                interp.iterate_concrete(a[0]) if isinstance(interp.resolve(a[0]), SymIter) else a[0]))
+        return NS(x=x, _force=force)
+
+    def samples(self, rng):
+        s = rng.randint(2, 8)
+        e = s + rng.randint(3, 12)
+        d = dict(x_starts=[s], x_ends=[e], strand=rng.choice(["PLUS", "MINUS"]), frame=rng.choice(["ZERO", "ONE", "TWO"]))
+        c0 = rng.randint(s, e - 1)
+        d.update(c0=c0, c1=rng.randint(c0 + 1, e))
+        if self.chunk:
+            cs = rng.randint(0, e + 2)
+            ce = cs + rng.randint(1, 10)
+            d.update(chunk_start=cs, chunk_end=ce, chunk_seq="".join(rng.choice("ACGT") for _ in range(ce - cs)))
+        return d
+
+    def observe(self, r):
+        return LocationApi.observe(self, r) if not isinstance(r, dict) else sorted(map(str, r))
+
+
+def _mk_gene_cases():
+    out = []
+    props = _gene_props()
+    for kind, meths in GENE_API.items():
+        for m in meths:
+            if props[(kind, m)] is None:
+                continue
+            for chunk in (False, True):
+                out.append(GeneApi(kind, m, chunk))
+    return out
+
+
+GENE_CASES = _mk_gene_cases()
+CASES = CASES + GENE_CASES
